@@ -8,7 +8,9 @@ RULE = ("generated families weighted to sequences (count const/field/expr/callab
         "packet field, when), optionals and references (static, run-time selected field or packet, in dict/list/lambda form), "
         "packets inside sequences inside packets x value-first valid inputs (+tails, +offsets), every truncation (<=24), flips, random; "
         "oracle: value tree, end offset and accept/reject equal the independent reference parse in both directions; absent "
-        "optionals emit nothing on pack. Non-trivial = parse reaches a sequence with count 0/<0/>1, an until-sequence that stops "
+        "optionals emit nothing on pack; 30% of the selectors over earlier packets hold ONLY pre-built packet objects, and every packet "
+        "an unpack() of the case returned is read again after all the later inputs of the case were parsed by the same classes (each "
+        "reference parses its OWN nested packet). Non-trivial = parse reaches a sequence with count 0/<0/>1, an until-sequence that stops "
         "before the data runs out, a false when, or a run-time selected reference; distinct = (source, raw, offset)")
 ASSUMPTIONS = ["reference parser bv/ir.py trusted", "fields selected at run time are restricted to those whose meaning does not depend on class options"]
 
